@@ -2,6 +2,6 @@ ID = "C13"
 TESTS = [
     T("vfsdir", "TestC13LockDropWindows",
       {"checks": 1500, "shards": 2, "timeout": 600},
-      {"checks": 20000, "shards": 8, "timeout": 2400}),
+      {"checks": 8000, "shards": 8, "timeout": 2400}),
 ]
 ASSUMPTIONS = ["C13 lock-drop windows: real goroutines; whether the call under test was already waiting for the pinned child lock when the mutation ran depends on a 2 ms grace period, which only affects which of the allowed outcomes occurs (never a false alarm)"]
